@@ -1,5 +1,5 @@
-\* exhaustive + emission (thorough): candidates within 0..8, every anchor subset, minimum 1..4, both preferences
-CONSTANTS MaxPt = 8  Mins = {1, 2, 3, 4}
+\* exhaustive + emission (thorough): candidates within 0..7, every anchor subset, minimum 1..4, both preferences
+CONSTANTS MaxPt = 7  Mins = {1, 2, 3, 4}
 INIT Init
 NEXT Next
 INVARIANT FailsIffAnchorsTooClose
